@@ -74,6 +74,8 @@ def show(form):
             parts.append(str(v))
         elif k[0] == 'len':
             parts.append(('%d*' % v if v != 1 else '') + 'len(%s)' % k[1])
+        elif k[0] == 'int':
+            parts.append(('%d*' % v if v != 1 else '') + k[1])
         elif k[0] == 'if':
             parts.append(('%d*' % v if v != 1 else '') + '[%s](%s)' % (k[1], show(dict(k[2]))))
         elif k[0] == 'sum':
@@ -390,6 +392,15 @@ class LenEval(object):
             g = comp.generators[0]
             elt = subst(comp.elt, {g.target.id: '_v'})
             return summed(self._canon_text(g.iter, env), self.intform(elt, func, ctx, env))
+        if isinstance(expr, ast.Attribute):
+            # a class constant of the receiver folds; any other attribute is an opaque integer term of its own
+            root = getattr(ctx, 'root', None)
+            if norm(expr.value) in ('self', 'cls') and root is not None:
+                v = self.p.lookup(root, expr.attr)
+                c = try_const(v[2]) if isinstance(v, tuple) and len(v) > 2 else None
+                if isinstance(c, int) and not isinstance(c, bool):
+                    return F(c)
+            return {('int', self._canon_text(expr, env)): 1}
         raise Unsupported('int expr %s' % norm(expr))
 
 
